@@ -7,8 +7,8 @@ from datetime import date, datetime, timedelta, timezone
 BOUND = {
     "quick": "components {Event, Todo} x starts {date, floating, UTC, zoned} x end forms {none, DTEND/DUE, DURATION 0, DURATION 1D, "
              "DURATION 1H30M} x alarm {-P1D, -PT15M, PT0S, +PT2H; RELATED START/END/absent/lower-case end; absolute UTC} x "
-             "REPEAT {absent,0,1,3} x DURATION {absent, PT6H, P1D, PT0S}; built via API and parsed; zoneinfo provider",
-    "thorough": "same grid under both providers plus DST-crossing zoned starts and pairs of alarms",
+             "REPEAT {absent,0,1,3} x DURATION {absent, PT6H, P1D, PT0S}; built via API and parsed; both providers",
+    "thorough": "same grid plus DST-crossing zoned starts and pairs of alarms",
 }
 
 
@@ -214,7 +214,7 @@ def run(b, tier, seed):
     fails = {}
     n = 0
     distinct = set()
-    providers = ["zoneinfo"] if tier == "quick" else ["zoneinfo", "pytz"]
+    providers = ["zoneinfo", "pytz"]
     for prov in providers:
         icalendar.timezone.tzp.use(prov)
         PROVIDER[0] = prov
